@@ -124,6 +124,28 @@ func (c *Ctx) rulePushLoops() {
 		fa := c.eng.analyze(fn, nil)
 		n := 0
 		ord := newOrdinal()
+		// nothing the loop calls appends on its own: only the offered values, one per iteration,
+		// can enter the stack (a refused value's members, a default, a copy ... cannot)
+		if fe := c.eff.fns[fn]; fe != nil {
+			var extra []string
+			for _, site := range fe.sites {
+				if site.Direct || site.Callee == nil || !c.p.inPkg(site.Callee) {
+					continue
+				}
+				for _, w := range site.Writes {
+					if (w.Loc == "HDR" || strings.HasPrefix(w.Loc, "APPEND")) && w.Root.Kind == 'p' && w.Root.Idx == 0 && !w.Root.Elem {
+						extra = append(extra, c.p.instrPos(site.Instr)+": "+relName(site.Callee)+" ("+w.Loc+")")
+					}
+				}
+			}
+			sort.Strings(extra)
+			extra = uniq(extra)
+			if len(extra) == 0 {
+				rep.ok("R-APPEND", sp.fn, "callees append nothing", c.p.pos(fn.Pos()), "no callee of the per-value loop writes the receiver's header")
+			} else {
+				rep.bad("R-APPEND", sp.fn, "callees append nothing", c.p.pos(fn.Pos()), "a callee of the per-value loop appends to the receiver on its own (values other than the offered ones can enter the stack): "+strings.Join(extra, "; "))
+			}
+		}
 		for _, b := range fn.Blocks {
 			for _, in := range b.Instrs {
 				st, ok := in.(*ssa.Store)
